@@ -113,13 +113,19 @@ func (s *Service) HandleMessage(ctx context.Context, conn ReadWriterContext, req
 
 // Shutdown shuts down the listener of a running service.
 func (s *Service) Shutdown() error {
-	s.running = false
 	s.mutex.Lock()
 	defer s.mutex.Unlock()
+	s.running = false
 	if s.listener == nil {
 		return nil
 	}
 	return s.listener.Close()
+}
+
+func (s *Service) isRunning() bool {
+	s.mutex.Lock()
+	defer s.mutex.Unlock()
+	return s.running
 }
 
 func (s *Service) handleConnection(ctx context.Context, conn net.Conn, wg *sync.WaitGroup) {
@@ -267,7 +273,7 @@ func (s *Service) Listen(ctx context.Context, address string, timeout time.Durat
 	l := s.listener
 	s.mutex.Unlock()
 
-	for s.running {
+	for s.isRunning() {
 		if timeout != 0 {
 			if err := s.refreshTimeout(timeout); err != nil {
 				return err
@@ -284,7 +290,7 @@ func (s *Service) Listen(ctx context.Context, address string, timeout time.Durat
 				s.mutex.Unlock()
 				continue
 			}
-			if !s.running {
+			if !s.isRunning() {
 				return nil
 			}
 			return err
@@ -316,7 +322,7 @@ func (s *Service) DoListen(ctx context.Context, timeout time.Duration) error {
 	s.running = true
 	s.mutex.Unlock()
 
-	for s.running {
+	for s.isRunning() {
 		if timeout != 0 {
 			if err := s.refreshTimeout(timeout); err != nil {
 				return err
@@ -333,7 +339,7 @@ func (s *Service) DoListen(ctx context.Context, timeout time.Duration) error {
 				s.mutex.Unlock()
 				continue
 			}
-			if !s.running {
+			if !s.isRunning() {
 				return nil
 			}
 			return err
@@ -355,7 +361,7 @@ func (s *Service) RegisterInterface(iface dispatcher) error {
 		return fmt.Errorf("interface '%s' already registered", name)
 	}
 
-	if s.running {
+	if s.isRunning() {
 		return fmt.Errorf("service is already running")
 	}
 	s.interfaces[name] = iface
